@@ -96,7 +96,11 @@ def runNet (tok : List String) : String × String :=
       | .pipe _ _ cnt => cnt * pipeCalls
       | _ => 0).foldl (· + ·) 0
     let fin := if n.listening then "alive" else "taskdone"
-    let out := (if obs.isEmpty then "-" else ";".intercalate (obs.map obsStr)) ++ s!" | {fin} calls={calls}"
+    -- `Z<k>.<n>`: a stalled peer (requests written, nothing read, connection kept): how many were
+    -- answered before its window closed is not determined; nothing else may depend on it
+    let stalled := (script.splitOn ",").any (·.startsWith "Z")
+    let callsStr := if stalled then "*" else toString calls
+    let out := (if obs.isEmpty then "-" else ";".intercalate (obs.map obsStr)) ++ s!" | {fin} calls={callsStr}"
     (out, out)
   | _ => ("bad-case", "bad-case")
 
